@@ -1,6 +1,8 @@
 /-
 Driver commands of C15:
   anchors A<n> t1 n1 .. <hex text>...      anchors one fresh Anchorizer issues for the texts, in order
+                                           (the memoised model `anchorizeMemoAll` = the code as it is; equal to the
+                                           set-based `anchorizeAll` by C15.anchorizeMemoAll_eq_spec)
   fnpass L<n> (label fold keep).. <tree> <tree>   does `processFootnotes` map the first tree to the second?
   fncheck L<n> (label fold keep).. <tree>  the tree-level oracles of Comrak/Footnotes.lean on a (real) final tree
   idgraph <hex html>                       lexHtml + the id/href skeleton of the output
@@ -72,7 +74,7 @@ def handle : Handler := fun cmd args =>
   | "anchors" => some do
       let (nt, r) ← parseNorm args
       let hs ← r.mapM hexArg
-      pure (String.intercalate " " ((anchorizeAll nt hs).map outHex))
+      pure (String.intercalate " " ((anchorizeMemoAll nt hs).map outHex))
   | "fnpass" => some do
       let (N, r) ← parseLabels args
       match Wire.forest? (r.length + 1) r with
